@@ -2,7 +2,7 @@
    ExtrOcamlBasic only (bool, option, list, prod, unit, sumbool mapped to
    OCaml's); Z, positive, nat stay as extracted inductives; no Extract Constant. *)
 From Coq Require Import ExtrOcamlBasic.
-From NX Require Import Bytes Reply Wire Query Forwarder Profile Discovery ProxyResolve Mdns CacheTTL Resolver Manager Listen Handler ResolvConf Config ClientInfo Router Refresh FwdText Svc.
+From NX Require Import Bytes Reply Wire Query Forwarder Profile Discovery ProxyResolve Mdns CacheTTL Resolver Manager Listen Handler ResolvConf Config ClientInfo Router Refresh FwdText Svc ProfText.
 Extraction Language OCaml.
 Extraction "model.ml"
   udp_adjust udp_reply tcp_frame tc_bit c05_udp_ok c05_tcp_ok
@@ -19,6 +19,7 @@ Extraction "model.ml"
   apply_items save load parse_cmd
   fwd_text_parse fwd_text_show printed_cond frule_same ascii_text
   svc_run svc0 svc_wf
+  prof_text_parse prof_text_show cut_eq trim_space
   short_id lan_client_info device_headers valid_header_value xxhash64 mac_string
   new configure setup restore view c20_setup_ok c20_not_pointing c20_restored mkEnv mkSnap mkCfg
   mdns0 announce views_agree mdns_lookup_host mdns_lookup_addr ptr_ip is_private_reverse spec_reverse private_spec proxy_resolve c12_ok to4.
